@@ -169,7 +169,7 @@ var arithSafe = []string{"add", "sub", "mul", "+", "-", "*"}
 var arithDiv = []string{"div", "mod", "/", "%"}
 
 // constants every harness configuration defines (Config.ConstantMap)
-var stdConsts = map[string]interface{}{"KT": true, "KF": false, "K7": int64(7), "KSTR1": "abc"}
+var stdConsts = map[string]interface{}{"KT": true, "KF": false, "K7": int64(7), "KSTR1": "abc", "KGOINT": int(2)}
 
 var boolVars = []string{"b0", "b1", "b2", "b3"}
 var intVars = []string{"i0", "i1", "i2", "i3"}
